@@ -7,6 +7,8 @@ package simrt
 
 import (
 	"fmt"
+	"io"
+	"os"
 	"reflect"
 	"runtime"
 	"runtime/debug"
@@ -14,6 +16,7 @@ import (
 	"strconv"
 	"sync"
 	"sync/atomic"
+	"syscall"
 	"time"
 	"unsafe"
 )
@@ -44,6 +47,8 @@ type Config struct {
 	Wait       func() // synctest.Wait
 	KeepEvents bool
 	Stdin      string
+	// StdoutFault, when set, fails one Write call on the command's output writer (cmd.OutOrStdout()).
+	StdoutFault *StdoutFault
 	// OnFinish is called (once) at the moment the run's observable result is
 	// fixed: the harness records how much has been written to stdout/stderr.
 	OnFinish func()
@@ -92,6 +97,65 @@ const (
 	OutInfra    = "infra"    // simulator-internal trouble; never a property verdict
 )
 
+// StdoutFault: the Call-th Write (1-based) on the command's standard output fails. Kind "short"
+// accepts the first N bytes (fewer than offered) and returns io.ErrShortWrite, "epipe" and "enospc"
+// accept nothing. Sticky: every later Write fails too (a closed pipe, a full disk); otherwise the
+// condition was transient and later writes succeed.
+type StdoutFault struct {
+	Call   int
+	N      int
+	Kind   string
+	Sticky bool
+}
+
+type faultWriter struct {
+	w io.Writer
+	s *Sim
+}
+
+func (f *faultWriter) Write(p []byte) (int, error) {
+	s, ft := f.s, f.s.cfg.StdoutFault
+	s.stdoutCalls++
+	if s.stdoutCalls == ft.Call || (ft.Sticky && s.stdoutCalls > ft.Call) {
+		s.probe("stdout-fault-fired")
+		n := 0
+		var err error
+		switch ft.Kind {
+		case "short":
+			err = io.ErrShortWrite
+			if s.stdoutCalls == ft.Call {
+				n = ft.N
+				if n >= len(p) {
+					n = len(p) - 1
+				}
+				if n < 0 {
+					n = 0
+				}
+				if n > 0 {
+					if m, werr := f.w.Write(p[:n]); werr != nil || m != n {
+						panic("simrt: capture of standard output failed")
+					}
+				}
+			}
+		case "enospc":
+			err = &os.PathError{Op: "write", Path: "/dev/stdout", Err: syscall.ENOSPC}
+		default:
+			err = &os.PathError{Op: "write", Path: "/dev/stdout", Err: syscall.EPIPE}
+		}
+		return n, err
+	}
+	return f.w.Write(p)
+}
+
+// WrapStdout replaces cmd.OutOrStdout() in instrumented code: the same writer, unless the run
+// has a fault planned for standard output.
+func WrapStdout(w io.Writer) io.Writer {
+	if mode.Load() != ModeSerial || cur == nil || cur.cfg.StdoutFault == nil {
+		return w
+	}
+	return &faultWriter{w: w, s: cur}
+}
+
 type Result struct {
 	Outcome    string
 	ExitCode   int
@@ -130,12 +194,13 @@ type Sim struct {
 	last     *task
 	current  *task
 
-	rootDone bool
-	aborting bool
-	done     bool // result snapshotted
-	res      *Result
-	stdout   []byte
-	stderr   []byte
+	rootDone    bool
+	aborting    bool
+	done        bool // result snapshotted
+	res         *Result
+	stdout      []byte
+	stdoutCalls int
+	stderr      []byte
 }
 
 type abortSentinel struct{}
